@@ -362,6 +362,32 @@ def clamp_table(tree) -> str:
     return "".join(out)
 
 
+def poisson_radius_table(tree) -> str:
+    """lower clip of the per-pixel Poisson-disc radii handed to the `_poisson` kernel:
+    `radius_x = np.clip(<expr>, lo, None)`; `-1` = the radius is not clipped from below"""
+    fn = _resolve(_classes(tree), "VariableDensityPoissonMaskFunc", "poisson")
+    rows = []
+    for var in ("radius_x", "radius_y"):
+        lo = None
+        for st in all_stmts(fn):
+            if isinstance(st, ast.Assign) and len(st.targets) == 1 and ast.unparse(st.targets[0]) == var:
+                v = st.value
+                if (isinstance(v, ast.Call) and ast.unparse(v.func) == "np.clip" and len(v.args) >= 2
+                        and isinstance(v.args[1], ast.Constant) and isinstance(v.args[1].value, int)):
+                    lo = v.args[1].value
+                else:
+                    lo = -1
+        if lo is None:
+            raise Untranslatable(f"assignment to `{var}` not found")
+        rows.append(f'("{var}", ({lo} : Int))')
+    # the same names must be what the kernel receives
+    ok = any(isinstance(n, ast.Call) and ast.unparse(n.func) == "_poisson" and
+             [ast.unparse(a) for a in n.args[4:6]] == ["radius_x", "radius_y"] for n in ast.walk(fn))
+    if not ok:
+        raise Untranslatable("call `_poisson(…, mask, radius_x, radius_y, seed)` not found")
+    return "def poisson_radius_floor : List (String × Int) := [" + ", ".join(rows) + "]\n"
+
+
 def build_table(tree) -> str:
     fn = find_function(tree, "build_masking_function")
     src = ast.unparse(fn).replace(" ", "")
@@ -642,6 +668,7 @@ FALLBACKS = {
     "assembly_table": ("def assembly_table : List (String × MaskGeom.BExp × MaskGeom.BExp) :=\n"
                        "  MaskGeom.Gen.all.map fun g => (g.name, .or .draw .acs, .acs)\n"),
     "clamp_table": "def clamp_KtUniform : Option (Int × Int) := some (0, 1)\ndef clamp_KtGaussian1D : Option (Int × Int) := none\n",
+    "poisson_radius_table": "def poisson_radius_floor : List (String × Int) := MaskGeom.poissonRadiusFloor\n",
     "build_table": ("def build_table : List (String × Bool × Bool × Bool × Bool) := MaskGeom.buildTable\n"
                     "def kt_mode_pinned_dynamic : Bool := true\n"),
 }
@@ -656,7 +683,7 @@ def _extra():
     except Untranslatable as e:
         tree, err = None, e
     for key, fn in (("reshape_tables", reshape_tables), ("broadcast_table", broadcast_table),
-                    ("return_table", return_table), ("assembly_table", assembly_table), ("clamp_table", clamp_table), ("build_table", build_table)):
+                    ("return_table", return_table), ("assembly_table", assembly_table), ("clamp_table", clamp_table), ("poisson_radius_table", poisson_radius_table), ("build_table", build_table)):
         try:
             if tree is None:
                 raise err
